@@ -143,6 +143,7 @@ bool splinetable<Alloc>::read_fits_mem(void* buffer, size_t buffer_size){
 	
 	fitsfile* fits;
 	int error = 0;
+	const uint64_t given_size = buffer_size;
 	
 	fits_open_memfile(&fits, "", READONLY, &buffer, &buffer_size, 0, NULL, &error);
 	if (error != 0){
@@ -159,6 +160,21 @@ bool splinetable<Alloc>::read_fits_mem(void* buffer, size_t buffer_size){
 			fits_report_error(stderr, error);
 		}
 	} cleanup(fits);
+	
+	//cfitsio's memory driver trusts the sizes declared in the headers and reads
+	//past the end of a buffer which holds less data than they announce.
+	//Refuse such a buffer before any data is read from it.
+	{
+		int nhdus=0, scan_error=0;
+		fits_get_num_hdus(fits, &nhdus, &scan_error);
+		for(int hdu=1; hdu<=nhdus && scan_error==0; hdu++){
+			LONGLONG headstart=0, datastart=0, dataend=0;
+			fits_movabs_hdu(fits, hdu, NULL, &scan_error);
+			fits_get_hduaddrll(fits, &headstart, &datastart, &dataend, &scan_error);
+			if(scan_error==0 && (dataend<0 || uint64_t(dataend)>given_size))
+				throw std::runtime_error("CFITSIO failed to open memory 'file' for reading: HDU "+std::to_string(hdu)+" extends beyond the end of the buffer");
+		}
+	}
 	try{
 		return(read_fits_core(fits, "memory 'file'"));
 	}catch(...){
